@@ -5,26 +5,26 @@ ROOT = os.path.dirname(os.path.dirname(os.path.abspath(__file__)))
 g = runpy.run_path(os.path.join(ROOT, "check"), run_name="check_module")
 PROPS = g["PROPS"]
 tech = {
- 'C01':'differential oracle: library move generation and legality query vs independent mailbox reference model over random playouts, complete move trees, synthesised and directed positions; UB-check build + Miri smoke (+ASan thorough)',
- 'C02':'differential oracle on successors (both entry points, dirty/uninitialised outputs) vs reference model; UB-check build + Miri smoke (+ASan thorough)',
- 'C03':'runtime invariants at quiescent points + from-scratch twin comparison + reference-model attack/pin oracle',
- 'C04':'exhaustive execution of small endgames + terminal positions in play vs reference-model status oracle',
- 'C05':'history monitor over long playouts and move trees (validity, monotone rights/material)',
- 'C06':'independent FEN lexer/standard writer as oracle over recorded positions; round-trip monitors',
- 'C07':'hostile-input workload (mutated/random text, arbitrary and crowded builder states) under panic capture, UB-check build, Miri (+ASan thorough); necessary-condition oracle on accepted boards',
- 'C08':'recorded (position,hash) event log with unique position ids; online + offline path-independence checker; transposition workloads',
- 'C09':'single-component sibling oracle + offline collision scan over merged event logs',
- 'C10':'online trace automaton (model game) over adversarial action sequences',
- 'C11':'online trace automaton with repetition list and half-move clock over long reversible games',
- 'C12':'independent SAN writer/strict reader as oracle over all spellings of all legal moves + fuzzed text under panic capture',
- 'C13':'exhaustive execution of all 20480 moves/64 squares + adversarial text under panic capture; Miri smoke',
- 'C14':'online trace automaton of the iterator contract over scripted call sequences; retrospective length-claim checking',
- 'C15':'exhaustive execution of every ray-occupancy per square against a ray-walking oracle, in the default and +bmi2 builds with UB checks; Miri sample',
- 'C16':'exhaustive execution of geometry functions against coordinate definitions; Miri',
- 'C17':'metamorphic oracle (mirror images) with lock-step parallel playouts',
- 'C18':'from-scratch twin comparison + reference-model check oracle at every node and interleaved in histories',
- 'C19':'model-based op-sequence monitor (Vec model) + Miri / UB-check build (+ASan, valgrind memcheck thorough) for out-of-bounds access',
- 'C20':'bit-by-bit set-model oracle over exhaustive singletons, structured and random values; Miri smoke',
+ 'C01':'differential oracle: MoveGen and Board::legal (all 20480 triples on sampled nodes) vs an independent mailbox reference model, over random playouts (continuing through rights-only divergence), complete move trees, 23 directed recipes, set-up e.p. positions, every slider-table entry reached through the generator, and a stored coverage-guided corpus; UB-check build, Miri (move-kind tour, threads smoke); thorough adds ASan',
+ 'C02':'differential oracle on successors (both entry points; default, unrelated, look-alike and uninitialised output boards) vs the reference model; UB-check build, Miri move-kind tour incl. the castle-rights tables of the other colour, threads smoke; thorough adds ASan',
+ 'C03':'runtime invariants at every node + from-scratch twins (FEN, builder) + reference-model attack/pin oracle, incl. positions with up to 15 lined-up sliders and every slider-table entry; UB-check build, Miri',
+ 'C04':'exhaustive execution of all 3-man (thorough: 12 four-man) endgames + status oracle in play with a one-ply look-ahead onto every terminal and few-move successor (games ended by e.p., castling, promotion; stalemates with an illegal pseudo-legal e.p. capture); UB-check build, Miri',
+ 'C05':'history monitor along the moves the library itself generates (validity, king count, monotone rights and material, is_sane) over long playouts and move trees; UB-check build, Miri',
+ 'C06':'independent FEN lexer and standard writer as oracle at every node of the walk workloads + round trips through text and builder, incl. the longest FENs a valid position has; UB-check build, ASan and Miri over the renderer',
+ 'C07':'hostile-input workload (mutated / random text, arbitrary, crowded, lattice, full-board and home-square-confusion builder states) under panic capture; necessary-condition oracle and one step of use on every accepted board; UB-check build, Miri; thorough adds ASan and a libFuzzer target',
+ 'C08':'event log of (exact position, hash, path) merged offline for path independence + from-scratch twins, transposition and move-order workloads, Hash/Eq consistency; UB-check build, Miri',
+ 'C09':'single-component sibling oracle (all rights subsets, e.p. files, every man), key-independence analysis and offline collision scan over the merged event logs of sparse positions; UB-check build, Miri',
+ 'C10':'online trace automaton (model game) over adversarial action scripts (legal / illegal / pseudo-legal moves with every promotion-field value, offers, accepts, resignations, declarations, calls after the result, a 66000-action log); UB-check build, Miri; thorough adds a libFuzzer target over action scripts',
+ 'C11':'online trace automaton with FIDE repetition identity and half-move clock over long reversible games (avoid / seek policies), windows opened by each kind of irreversible move, castling and rights loss inside the window, draw offers inside quiet stretches; UB-check build, Miri; thorough adds the libFuzzer game target',
+ 'C12':'independent SAN writer and strict reader as oracle over all spellings of all legal moves, near-miss families (pseudo-legal-but-illegal with every decoration, own-piece destinations, sibling positions) and fuzzed text incl. systematic non-ASCII insertions, also on accepted boards with more than 218 legal moves; UB-check build, ASan, Miri; thorough adds libFuzzer targets',
+ 'C13':'exhaustive execution of all 20480 moves and 64 squares (render, re-parse), adversarial text under panic capture, call-history independence (every canonical text re-parsed after 12 relatives), range check and table use of every parsed square; UB-check build, Miri; thorough adds a libFuzzer target',
+ 'C14':'online trace automaton of the iterator contract over scripted call sequences (masks, len, removals) with retrospective length-claim checking + equivalence of every Iterator adaptor with plain next(); UB-check build, Miri (uninitialised move-list tail); thorough adds ASan',
+ 'C15':'exhaustive execution of every relevant occupancy per square (plus noise) against a ray walker in the default and +bmi2 builds, call-history independence (primed pairs, relocations, sparse boards, index neighbours); UB-check builds, ASan over +bmi2, Miri sample',
+ 'C16':'exhaustive execution of the geometry functions and square arithmetic against coordinate definitions, sweep over every Square constructor with out-of-range inputs; UB-check build, ASan, Miri',
+ 'C17':'metamorphic oracle (colour and left-right mirror images) with lock-step parallel playouts; UB-check build, Miri',
+ 'C18':'from-scratch twin comparison + reference-model oracle for null moves at every node and interleaved in histories, incl. many lined-up sliders; UB-check build, Miri',
+ 'C19':'model-based op-sequence monitor (Vec model) over eight payload types incl. floats compared by bit pattern, bulk false-hit probe of 2^33 lookups; UB-check build, ASan, Miri; thorough adds valgrind memcheck',
+ 'C20':'bit-by-bit set-model oracle over exhaustive singletons, structured and random values, all operator variants (owned / borrowed / assigning, same-object operands) and Iterator adaptors; UB-check build, Miri',
 }
 hook_commits = [l.split()[0] for l in os.popen("git -C /repo log --oneline --grep='^verif hook'").read().splitlines()]
 checks = []
@@ -43,14 +43,14 @@ for pid in sorted(PROPS):
         level_claimed=dict(category="exploration",
             text="Runtime monitoring: the property held on every execution the workloads produced (counts, features and samples in the evidence file); %s. Nothing is claimed about inputs or histories that were not driven." % tech[pid],
             design_ref="DESIGN.md section 3, %s" % pid),
-        level_note="Trusted base: the independent mailbox reference model / coordinate-level oracles in harness/src (model self-checked against published perft numbers at every worker start), rustc/Miri/ASan, and the driver's attribution of process aborts to the last case marker. " + " ".join(c['assumptions']),
+        level_note="Trusted base: the independent mailbox reference model / coordinate-level oracles in harness/src (model self-checked against published perft numbers at every worker start), rustc / Miri / ASan / valgrind, and the driver's attribution of process aborts to the last case marker. " + " ".join(c['assumptions']),
         technique=tech[pid]))
 m = dict(version=1,
   setup_cmd="./check --setup",
   hooks=dict(guard="cfg(chess_verif)", enable='RUSTFLAGS="--cfg chess_verif" (set by ./check for every variant it builds)',
      baseline_off_cmd="cd /repo && cargo test --workspace --no-fail-fast --offline",
      source_commits=hook_commits, add_only=True),
-  engines=[dict(name="harness", path="harness", serves_properties=sorted(PROPS), kind_free_text="Rust worker (bin mon) with reference model, workloads and one monitor per property, built from /repo's working tree in several instrumented variants (UB-check, Miri, ASan, +bmi2, valgrind); python driver ./check shards it over 16 processes, merges event logs, applies coverage gates and known findings, writes evidence")],
+  engines=[dict(name="harness", path="harness", serves_properties=sorted(PROPS), kind_free_text="Rust worker (bin mon) with reference model, workloads and one monitor per property, built from /repo's working tree in several instrumented variants (UB-check release build, +bmi2, Miri, ASan, ASan over +bmi2, valgrind memcheck, libFuzzer targets fen / san / uci / play / game); every worker starts with a multi-threaded first use of the library (Miri's race detector as oracle); python driver ./check shards it over 16 processes, merges event logs, applies coverage gates and known findings, writes evidence")],
   checks=checks,
   notes="Verdicts are three-valued: exit 0 held on what was observed, exit 1 VIOLATION with replay file, exit 2 INCONCLUSIVE (harness/build problem, watchdog, coverage gate). Genuine defects found and repaired are listed in KNOWN_FINDINGS.txt (fixed: lines) and DESIGN.md section 6.",
   not_applicable=[])
